@@ -43,6 +43,7 @@ import (
 	"sync/atomic"
 	"time"
 
+	gproto "google.golang.org/protobuf/proto"
 	"google.golang.org/protobuf/types/known/timestamppb"
 	"reduction.dev/reduction-protocol/handlerpb"
 	"reduction.dev/reduction/batching"
@@ -259,6 +260,8 @@ func (n *opNode) Deploy(ctx context.Context, req *workerpb.DeployOperatorRequest
 	n.cluster.deployMu.Lock()
 	defer n.cluster.deployMu.Unlock()
 	if n.alias {
+		// jobs.Assembly.Deploy hands every operator the same checkpoint messages: re-spell a copy
+		req = gproto.Clone(req).(*workerpb.DeployOperatorRequest)
 		for _, ck := range req.Checkpoints {
 			if uri, err := aliasDoc(ck.DkvFileUri, n.id); err == nil {
 				ck.DkvFileUri = uri
